@@ -164,9 +164,12 @@ def gen_spec(rng):
                            "nested", "subline_page_by"])
     nrow = rng.choice([rng.randint(1, 50), rng.randint(4, 14), rng.randint(6, 20)])
     n = rng.choice([rng.randint(0, 12), rng.randint(10, 60)])
-    spec = G.gen_table_spec(rng, nrows=n, ncols=(1, 5), strategy=strategy, attrs_p=0.0, rich=0.0, nrow=nrow,
+    wide = rng.random() < 0.15
+    spec = G.gen_table_spec(rng, nrows=n, ncols=(9, 14) if wide else (1, 5), strategy=strategy, attrs_p=0.0, rich=0.0,
+                            nrow=nrow,
                             header=rng.choice(["default", "default", "explicit", "tworow", "none"]), page={},
-                            col_rel_width=rng.random() < 0.4, maxruns=rng.choice([2, 4, 8]), title=rng.random() < 0.3,
+                            col_rel_width=wide or rng.random() < 0.4, maxruns=rng.choice([2, 4, 8]),
+                            title=rng.random() < 0.3,
                             subline=False, page_hf=False)
     page = spec.setdefault("page", {})
     page["nrow"] = nrow
@@ -194,7 +197,31 @@ def gen_spec(rng):
     colw = {j: total * w[j] / sum(dw) for j in disp}
     grouping = set(body.get("page_by") or []) | set(body.get("subline_by") or [])
     keyj = spec["_meta"]["key"]
-    if rng.random() < 0.6:
+    if wide:
+        # many columns of very different widths holding the SAME or nearly the same text in one row (the text,
+        # and the text behind one more digit): what a cell needs depends on its column, not on its text alone
+        ctx_cols = [j for j in disp if cols[j]["name"] not in grouping and j != keyj]
+        for j in ctx_cols:
+            cols[j]["dtype"] = "str"
+            cols[j]["values"] = [""] * n
+        for r in range(n):
+            if not ctx_cols or rng.random() < 0.4:
+                continue
+            jn = min(ctx_cols, key=lambda j: colw[j])
+            base = text_for_lines(rng, rng.randint(2, 5), colw[jn], E.broadcast(body.get("text_font", 1), r, jn),
+                                  E.broadcast(body.get("text_font_size", 9), r, jn))
+            for j in ctx_cols:
+                q = rng.random()
+                cols[j]["values"][r] = base if q < 0.4 else rng.choice("0123456789") + base if q < 0.7 else ""
+            # ... in particular where the position of one column is a prefix of another's (1 and 12): a key
+            # built by joining position and text without a separator cannot tell ("1","2X") from ("12","X")
+            pairs = [(a, b) for a in range(len(disp)) for b in range(10, len(disp))
+                     if str(b).startswith(str(a)) and a != b and disp[a] in ctx_cols and disp[b] in ctx_cols]
+            if pairs and rng.random() < 0.5:
+                a, b = rng.choice(pairs)
+                cols[disp[a]]["values"][r] = str(b)[len(str(a)):] + base
+                cols[disp[b]]["values"][r] = base
+    elif rng.random() < 0.6:
         for j in disp:
             if cols[j]["name"] in grouping or j == keyj or cols[j]["dtype"] != "str":
                 continue
